@@ -15,6 +15,7 @@ import HdwModel.Driver.Judge
 import HdwModel.Driver.JudgeTx
 import HdwModel.Driver.JudgeTd
 import HdwModel.Driver.JudgeSign
+import HdwModel.Prim.SecpAffine
 
 namespace Hdw.Driver
 open Hdw
@@ -204,6 +205,19 @@ def runOp (env : Env) (parts : List String) : Resp :=
     | some b => ofRes (Account.new CV b) fun d =>
         [hx (Account.secret d), hx (Account.publicUncompressed CV d),
          hxStr (Account.addressDisplay P (Account.address P CV d))]
+    | none => .harness "bad arg"
+  | ["secp.affine", b] =>
+    -- k·G by the VERIFIED affine arithmetic (`Prim/SecpAffine.lean`, proved to be the group law of secp256k1 in
+    -- `Props/SecpInstance.lean`), which must also agree with the fast Jacobian arithmetic every other op uses
+    match unhex b with
+    | some b =>
+      let k := beVal b
+      if b.length != 32 || k == 0 || k ≥ Prim.Secp.n then .harness "scalar must be 32 bytes in [1, n-1]" else
+      match Hdw.Lemmas.SecpInstance.mulA 256 k (some (Prim.Secp.gx, Prim.Secp.gy)), Prim.Secp.mulG k with
+      | some (x, y), some (x', y') =>
+        if x % Prim.Secp.p == x' && y % Prim.Secp.p == y' then .ok [hx (0x04 :: (beFixed 32 x' ++ beFixed 32 y'))]
+        else .harness "the fast Jacobian arithmetic of the driver disagrees with the verified affine arithmetic"
+      | _, _ => .harness "the fast Jacobian arithmetic of the driver disagrees with the verified affine arithmetic"
     | none => .harness "bad arg"
   | ["acct.sign", key, digest] =>
     match unhex key, unhex digest with
